@@ -63,6 +63,7 @@ class World(object):
         self.proxy_runs = []
         self.answers_checked = 0
         self.reentries_from_handler = 0
+        self.reentries_after_a_handmade_error = 0
         self.proxy_checks = 0
         self.dirty_from_own_body = 0
         self.asked_by_descendants = 0
@@ -89,7 +90,14 @@ def body(fn, key):
             w.running.pop()
             try:
                 try:
-                    yield fns()["failing"].asynq()
+                    if c.get("reenter_in_handler") == 2:
+                        # ... after a future that was failed by hand: its error object was never raised anywhere
+                        from asynq.futures import ErrorFuture
+
+                        w.reentries_after_a_handmade_error += 1
+                        yield ErrorFuture(UserErr(("handmade", fn, key)))
+                    else:
+                        yield fns()["failing"].asynq()
                 finally:
                     w.running.append(mk)
             except UserErr:
@@ -376,7 +384,7 @@ def make_script(rnd):
     cfg = {}
     for fn in fnames:
         for k in keys:
-            cfg[repr((fn, k))] = {"blocks": rnd.choice([1, 1, 2, 3]), "fail": rnd.random() < 0.25, "reenter": rnd.random() < 0.2, "reenter_spelling": rnd.randrange(6), "reenter_in_handler": rnd.random() < 0.12, "dirty_self": rnd.random() < 0.12, "child_asks": rnd.choice([0, 0, 0, 0, 0, 1, 2])}
+            cfg[repr((fn, k))] = {"blocks": rnd.choice([1, 1, 2, 3]), "fail": rnd.random() < 0.25, "reenter": rnd.random() < 0.2, "reenter_spelling": rnd.randrange(6), "reenter_in_handler": rnd.choice([1, 2]) if rnd.random() < 0.16 else 0, "dirty_self": rnd.random() < 0.12, "child_asks": rnd.choice([0, 0, 0, 0, 0, 1, 2])}
     actors = []
     for a in range(rnd.randint(2, 6)):
         script = []
@@ -794,6 +802,7 @@ def run_unit(unit, progress):
             inc("reruns_after_dirty", w.after_dirty)
             inc("answers_checked_against_requested_arguments", w.answers_checked)
             inc("reentries_from_an_except_handler", w.reentries_from_handler)
+            inc("reentries_from_an_except_handler_after_a_handmade_error", w.reentries_after_a_handmade_error)
             inc("dirty_calls_from_the_running_body_itself", w.dirty_from_own_body)
             inc("requests_by_tasks_the_suspended_body_created", w.asked_by_descendants)
             inc("deduplicated_proxy_checks", w.proxy_checks)
